@@ -8,7 +8,7 @@ precondition at the call site, havoc the callee's footprint and assume its postc
 real function is in turn proved to satisfy exactly that contract (post + frame)."""
 from pyvc.cdef import Contract, LoopSpec
 from pyvc.schema import Int, Bool, Const, Bytes, ByteArray, Obj, OneOf
-from pyvc.specrt import implies, ite, oracle_int, require, assume
+from pyvc.specrt import implies, ite, oracle_int, require, assume, clock_now
 from spec.rf24_state import inv
 from spec.net_ref import valid_node, valid_address, level, level_addr
 from spec.net_state import net_schema, net_inv, listening, node_ok, pa, NETPOL
@@ -98,27 +98,63 @@ def io_fixed(self):
 
 # ---- _tx_standby ----------------------------------------------------------------------------
 
+def ds_latched(self):
+    """TX_DS: the radio reports the frame at the head of its TX FIFO as sent (acknowledged where an ACK is due)"""
+    return (self._rf24._spi.hw.reg[7] & 0x20) != 0
+
+
 def req_tx_standby(self, delta_time):
+    """called for a frame that has just FAILED (TX mode, no TX_DS latched)"""
     hw = self._rf24._spi.hw
-    return home_ok(self) and (hw.reg[0] & 3) == 2 and 0 <= delta_time and delta_time <= 100000
+    return home_ok(self) and (hw.reg[0] & 3) == 2 and 0 <= delta_time and delta_time <= 100000 and not ds_latched(self)
+
+
+# ---- termination measures (LoopSpec.variant; rule and A-CLK-PROGRESS in pyvc/loops.py) ---------
+
+def var_deadline(timeout):
+    """time left until a deadline held in the local `timeout` (ns)"""
+    return timeout - clock_now()
+
+
+def var_rx_deadline(rx_timeout):
+    return rx_timeout - clock_now()
+
+
+def var_retries(retries):
+    return retries
+
+
+def var_rx_fifo(self):
+    """_net_update's receive loop: payloads still waiting in the RX FIFO.  In this model the traffic of
+    one call is what the FIFO holds (radio io only ever shrinks it: havoc_radio_io), so every turn
+    that goes round again has popped one -- A-RX-FIN in its strongest form: nothing new arrives
+    while update() runs"""
+    return self._rf24._spi.hw.rx_n
 
 
 def inv_tx_standby(self, result):
     hw = self._rf24._spi.hw
-    return home_ok(self) and (hw.reg[0] & 3) == 2 and isinstance(result, bool)
+    return home_ok(self) and (hw.reg[0] & 3) == 2 and isinstance(result, bool) and result == ds_latched(self)
 
 
 def ens_tx_standby(self, old_self, result, exc):
     return exc is None and isinstance(result, bool) and home_ok(self) and io_fixed(self) == io_fixed(old_self)
 
 
+def ens_tx_standby_fate(self, result, exc):
+    """True iff a retransmission was accepted (seed s78: a caller that drops this value reports a delivered frame as failed)"""
+    return exc is None and result == ds_latched(self)
+
+
 def abs_tx_standby(self, delta_time):
     hw = self._rf24._spi.hw
-    require(home_ok(self) and (hw.reg[0] & 3) == 2, "_tx_standby: TX mode, radio_home")
+    require(home_ok(self) and (hw.reg[0] & 3) == 2 and not ds_latched(self), "_tx_standby: TX mode, radio_home, the frame has just failed")
     havoc_radio_io(self)
     hw.ce = oracle_int(0, 1) == 1
     assume(home_ok(self))
-    return oracle_int(0, 1) == 1
+    ok = oracle_int(0, 1) == 1
+    assume(ok == ds_latched(self))        # C07._tx_standby.fate
+    return ok
 
 
 # ---- _write_to_pipe ---------------------------------------------------------------------------
@@ -137,7 +173,8 @@ def inv_frag_loop(self, k_, total, msg_len, msg_t):
 
 def inv_retry_loop(self, result, retries):
     hw = self._rf24._spi.hw
-    return home_ok(self) and (hw.reg[0] & 3) == 2 and 0 <= retries and retries <= 3
+    return (home_ok(self) and (hw.reg[0] & 3) == 2 and 0 <= retries and retries <= 3
+            and isinstance(result, bool) and result == ds_latched(self))
 
 
 def havoc_frag(self):
@@ -482,7 +519,7 @@ POL_PUB.update({
 M = "mixins:NetworkMixin."
 LOOPS_WTP = {
     (M + "_write_to_pipe", 0): LoopSpec(R + "inv_frag_loop", havoc=[R + "havoc_frag"], frame=R + "frag_fixed"),
-    (M + "_write_to_pipe", 1): LoopSpec(R + "inv_retry_loop", havoc=[R + "havoc_radio_io_ce"], frame=R + "io_fixed_hdr"),
+    (M + "_write_to_pipe", 1): LoopSpec(R + "inv_retry_loop", havoc=[R + "havoc_radio_io_ce"], frame=R + "io_fixed_hdr", variant=R + "var_retries"),
 }
 
 
@@ -501,8 +538,8 @@ CONTRACTS = [
     Contract("C07._begin", M + "_begin", {"self": net_schema(), "n_addr": Int(0, 4095)},
              requires=[R + "req_begin"], ensures=[("listening", R + "ens_begin")], raises=(), policy=POL, props=["C07"]),
     Contract("C07._tx_standby", M + "_tx_standby", {"self": net_schema(), "delta_time": Int(0, 100000)},
-             requires=[R + "req_tx_standby"], ensures=[("home", R + "ens_tx_standby")], raises=(), policy=POL,
-             loops={(M + "_tx_standby", 0): LoopSpec(R + "inv_tx_standby", havoc=[R + "havoc_radio_io_ce"], frame=R + "io_fixed_hdr")},
+             requires=[R + "req_tx_standby"], ensures=[("home", R + "ens_tx_standby"), ("fate", R + "ens_tx_standby_fate")], raises=(), policy=POL,
+             loops={(M + "_tx_standby", 0): LoopSpec(R + "inv_tx_standby", havoc=[R + "havoc_radio_io_ce"], frame=R + "io_fixed_hdr", variant=R + "var_deadline")},
              props=["C07", "C15"]),
     Contract("C07._write_to_pipe", M + "_write_to_pipe",
              {"self": net_schema(), "to_node": Int(0, 4095), "to_pipe": Int(0, 5), "is_multicast": Bool()},
@@ -511,11 +548,11 @@ CONTRACTS = [
              policy=dict(POL, **{M + "_tx_standby": "ref:" + R + "abs_tx_standby"}), loops=LOOPS_WTP, props=["C07", "C15", "C11"], replayable=False),
     Contract("C07._write", M + "_write", {"self": net_schema(), "write_direct": Int(0, 4095), "send_type": Int(0, 4)},
              requires=[R + "req_write"], ensures=DIAG + [("listening", R + "ens_node_ok"), ("header", R + "ens_write_hdr")], raises=(), policy=POL_ABS,
-             loops={(M + "_write", 0): LoopSpec(R + "inv_ack_wait", havoc=[R + "havoc_update"], frame=R + "fixed_cfg")},
+             loops={(M + "_write", 0): LoopSpec(R + "inv_ack_wait", havoc=[R + "havoc_update"], frame=R + "fixed_cfg", variant=R + "var_rx_deadline")},
              props=["C07", "C15"], replayable=False),
     Contract("C07._net_update", M + "_net_update", {"self": net_schema()},
              requires=[R + "req_update"], ensures=[("listening", R + "ens_node_ok"), ("frame_valid", R + "ens_update_frame")], raises=(), policy=POL_UPD,
-             loops={(M + "_net_update", 0): LoopSpec(R + "inv_update_loop", havoc=[R + "havoc_update_loop"], frame=R + "fixed_cfg_aa")},
+             loops={(M + "_net_update", 0): LoopSpec(R + "inv_update_loop", havoc=[R + "havoc_update_loop"], frame=R + "fixed_cfg_aa", variant=R + "var_rx_fifo")},
              props=["C07", "C15"], max_paths=20000, replayable=False),
     Contract("C07.update", "rf24_network:RF24NetworkRoutingOnly.update", {"self": net_schema()},
              requires=[R + "req_node"], ensures=[("listening", R + "ens_node_ok")], raises=(), policy=POL_PUB, props=["C07"], replayable=False),
